@@ -314,3 +314,14 @@ Fixpoint irun_region (f : io) (ops : list iop) : nat :=
               | k => k
               end
   end.
+
+(* ---- the library's own audit: structural keys of ioapi_base.audit_meta(fail='ignore') that are functions of the modelled state ---- *)
+Definition audit_structb (f : io) : bool :=
+  Nat.eqb (a_nl f) (nl f)                                            (* 'LAY'  : NLAYS == len(LAY) *)
+  && Nat.eqb (nvars f) (vardim f)                                    (* 'VAR'  : NVARS == len(VAR) *)
+  && opt_nat_agrees (a_nr f) (nr f) && opt_nat_agrees (a_nc f) (nc f)  (* 'ROW', 'COL' (gridded files) *)
+  && Nat.eqb (nvars f) (length (varlist f))                          (* 'VAR-LIST-LEN' : NVARS * 16 == len(VAR-LIST) *)
+  && forallb (fun k => memb k (dvars f)) (varlist f)                 (* has_<var>, 'VAR-LIST' (pruning changes nothing), var_<k>.right_dims *)
+  && match tflag f with                                              (* has_TFLAG, SDATE_TFLAG, STIME_TFLAG *)
+     | Some (_, r0 :: _) => pair_eqb r0 (sdate f, stime f)
+     | _ => false end.
